@@ -22,7 +22,10 @@ EXPLANATION = (
     "len(), rank exactly when index > len() (cross-check of siblings on the comparison operator of their entry test); (C19.5) a "
     "structural clause of `finds the same occurrences ... including absent patterns`: one step of backward search "
     "(Psi::constrain) keeps an empty range empty -- every early return taken on an emptiness test (lo > hi) yields a pair "
-    "proved empty (the tested pair itself, (t, t - 1), or a constant pair).  "
+    "proved empty (the tested pair itself, (t, t - 1), or a constant pair); (C19.6) in the functions that write the index (a Builder or byte-vector "
+    "parameter) a loop driven by zip() of two sequences ends with the shorter one: the two sides are equally long by construction -- the same "
+    "sequence, its adjacent-pairs form `x[..n-1]` / `x[1..]`, or vectors whose pushes are paired under the same conditions -- otherwise the "
+    "elements the longer side still holds are never written.  "
     "TABLE reading of derived unpack switch trees, ORIGIN of builder receivers and field-number constants over resolved MIR.")
 NOT_DECIDED = ("everything else in C19: suffix-array construction, psi, backward search, rank/select, record mapping and extraction are "
                "numerical results over all inputs; the byte-level layout inside bytes fields (offsets in the prefix wavelet tree, bit "
@@ -39,6 +42,7 @@ def rules(ctx):
     c191(ctx)
     c194(ctx)
     c195(ctx)
+    c196(ctx)
 
 
 def builder_params(f):
@@ -433,3 +437,110 @@ def c195(ctx):
                           "when `%s` is empty (lo > hi) the step returns (%s, %s), which is not known to be empty: an absent symbol no longer empties the "
                           "match, so patterns that do not occur are reported with the hits of a shorter pattern" % (who, B.named(f, lo), B.named(f, hi)), pt=o)
     ctx.floor(R, "early returns on an emptiness test in Psi::constrain", n, 2)
+
+
+# ------------------------------------------------------------------------------------------------
+# C19.6 a zip() in an index writer ends with its shorter side: both sides are equally long by construction
+
+def _zip_side(f, op):
+    """(base id, shape, slice form) of one zip operand: which sequence it walks and how."""
+    shape, sl, base = "elems", None, None
+    seen_calls = []
+    for s_ in P.origins(f, op):
+        if s_["k"] == "call":
+            ck = s_["callee"]
+            seen_calls.append(ck)
+            m = re.search(r"::(chunks|chunks_exact|windows|rchunks)$", ck)
+            if m:
+                shape = (m.group(1), tuple(sorted(K.sig(f, s_["t"]["args"][1]))))
+                b2, _s2, l2 = _zip_side(f, s_["t"]["args"][0])
+                base, sl = b2, l2
+                return base, shape, sl
+            if re.search(r"index::index$|Index<.*>>::index$|index::Index.*::index$", ck) and len(s_["t"]["args"]) == 2:
+                for r_ in P.origins(f, s_["t"]["args"][1]):
+                    if r_["k"] == "agg" and "range::Range" in (r_.get("adt") or ""):
+                        kind = r_["adt"].rsplit("::", 1)[-1]
+                        ops = r_["st"]["rv"]["ops"]
+                        desc = []
+                        for o_ in ops:
+                            c_ = [x.get("v") for x in P.value_slice(f, o_)[0] if x["k"] == "const" and "v" in x]
+                            subs = [x for x in P.value_slice(f, o_)[0] if x["k"] == "bin" and x["op"].startswith("Sub")]
+                            lens = [x for x in P.value_slice(f, o_)[0] if x["k"] == "call" and x["callee"].endswith("::len")]
+                            desc.append("len-1" if (subs and lens and 1 in c_) else ("%s" % c_[0] if len(c_) == 1 and not lens else "?"))
+                        sl = (kind, tuple(desc))
+        elif s_["k"] == "param" and not s_["proj"]:
+            base = ("p", s_["i"])
+    if base is None:
+        cur = op
+        for _ in range(8):
+            if cur is None or cur.get("k") not in ("copy", "move"):
+                break
+            l = cur["pl"]["l"]
+            if f.local_name(l) and re.search(r"Vec<", f.locals[l]):
+                base = ("l", l)
+                break
+            ds = [(kind, p_) for (_pt, kind, p_) in P.defs(f).of(l) if kind in ("assign", "call")]
+            if len(ds) != 1:
+                break
+            kind, p_ = ds[0]
+            if kind == "call":
+                cur = p_["args"][0] if p_["args"] and P.TRANSPARENT.search(callee_skey(p_) or "") else None
+            elif p_["rv"]["r"] in ("ref", "rawptr"):
+                cur = {"k": "copy", "pl": {"l": p_["rv"]["pl"]["l"], "p": []}} if not P._field_elems(p_["rv"]["pl"]) else None
+            elif p_["rv"]["r"] in ("use", "cast"):
+                cur = p_["rv"]["a"]
+            else:
+                cur = None
+    return base, shape, sl
+
+
+def _push_guards(f, local, depth=0):
+    """Dominating-guard signatures of the pushes that fill a Vec local (following `a = b` moves of whole vectors)."""
+    out = []
+    for pt, kind, payload in P.defs(f).of(local):
+        if kind == "store":
+            out.append((frozenset(P.guards_of(f, pt)), P.reach(f, P.after(f, pt), [pt]) is not None))
+        elif kind == "assign" and payload["rv"]["r"] == "use" and depth < 3:
+            o = payload["rv"]["a"]
+            if o.get("k") in ("copy", "move") and not o["pl"]["p"] and o["pl"]["l"] != local:
+                out += _push_guards(f, o["pl"]["l"], depth + 1)
+    return out
+
+
+def c196(ctx):
+    R = "C19.6"
+    ctx.declare(R, "index writers never drive a loop by a zip() whose sides can differ in length")
+    n = 0
+    for f in sorted(ctx.prog.fns.values(), key=lambda f: f.skey):
+        if f.crate != "scrunch" or f.kind == "Closure":
+            continue
+        writer = any(re.search(r"scrunch::builder::Builder|&mut alloc::vec::Vec<u8", f.locals[i]) for i in range(1, f.argc + 1)) or \
+            re.search(r"::(construct\w*|from_indices|check_record_boundaries)$", f.skey)
+        if not writer:
+            continue
+        for b, t in f.calls():
+            ck = callee_skey(t) or ""
+            if not re.search(r"core::iter::(adapters::zip::)?zip$|Iterator::zip$", ck) or len(t["args"]) != 2:
+                continue
+            n += 1
+            pt = P.term_pt(f, b.idx)
+            (ba, sa, la), (bb, sb, lb) = _zip_side(f, t["args"][0]), _zip_side(f, t["args"][1])
+            why = None
+            if ba is not None and ba == bb and sa == sb:
+                forms = {la, lb}
+                if la == lb:
+                    why = "both sides walk the same sequence"
+                elif forms in ({None, ("RangeFrom", ("1",))}, {("RangeTo", ("len-1",)), ("RangeFrom", ("1",))}):
+                    why = "adjacent pairs of one sequence (x[..n-1] / x, x[1..])"
+            elif ba is not None and bb is not None and ba[0] == "l" and bb[0] == "l" and sa == sb and la == lb and \
+                    isinstance(ba[1], int) and isinstance(bb[1], int):
+                ga, gb = _push_guards(f, ba[1]), _push_guards(f, bb[1])
+                if ga and gb and sorted(map(repr, ga)) == sorted(map(repr, gb)):
+                    why = "two vectors filled by pushes under the same conditions"
+            ctx.check(R, f, "zip-sides-equal", why is not None, "zip() sides are equally long by construction: %s" % why,
+                      "%s drives a loop by zip() of two sequences that are not equally long by construction (%s %s %s / %s %s %s): the loop ends with the "
+                      "shorter side and what the longer side still holds is never written -- in the sparse bit vector a level whose divider list is one "
+                      "shorter than its pointer list loses its last node" % (f.skey, ba, sa, la, bb, sb, lb), pt=pt)
+    # no floor: a writer without any zip() satisfies the clause (the matcher itself is exercised by mutants/C19__sparse_levels_zipped.patch
+    # and by the two adjacent-pairs zips on today's tree, which are recorded as discharged obligations)
+    ctx.notes.append("C19.6 examined %d zip() calls in index writers" % n)
